@@ -339,7 +339,7 @@ func checkRowGuards(c *Ctx, r *Report) {
 // ---------------------------------------------------------------------------------------------------------------
 
 func checkViewPassThrough(c *Ctx, r *Report) {
-	r.Rule("S-PASS", "a wrapper's Crop passes (left, top, width, height) to the wrapped Crop in that order, and the wrappers of an inverted source (Crop, RotateCounterClockwise, RotateCounterClockwise45) re-wrap the delegate's result in NewInvertedLuminanceSource; BinaryBitmap.Crop/Rotate build the new bitmap from a fresh binarizer over the new source", 7)
+	r.Rule("S-PASS", "a wrapper's Crop passes (left, top, width, height) to the wrapped Crop in that order, and the wrappers of an inverted source (Crop, RotateCounterClockwise, RotateCounterClockwise45) re-wrap the delegate's result in NewInvertedLuminanceSource; BinaryBitmap.Crop/Rotate build the new bitmap from a fresh binarizer over the new source; BinaryBitmap.GetBlackRow answers with its binarizer's GetBlackRow(y, row) on every return", 8)
 	argsInOrder := func(t string) {
 		key := "gozxing." + t + ".Crop"
 		fd, p := c.funcDeclOf("", t+".Crop")
@@ -432,6 +432,47 @@ func checkViewPassThrough(c *Ctx, r *Report) {
 			}
 		}
 		r.Check(ok, "S-PASS", key, c.pos(fd.Pos()), "must return NewBinaryBitmap(binarizer.CreateBinarizer(<the new source>)): a bitmap sharing the old binarizer would serve the old cached matrix")
+	}
+	// BinaryBitmap.GetBlackRow: every return hands on what the binarizer's own row method answers for (y, row) - the
+	// row method has its own threshold (and its own range errors); the cached matrix of another method is no substitute
+	if fd, p := c.funcDeclOf("", "BinaryBitmap.GetBlackRow"); fd != nil {
+		key := "gozxing.BinaryBitmap.GetBlackRow/delegates"
+		r.Analysed(key)
+		ps := paramObjs(p, fd)
+		bad := ""
+		nRet := 0
+		ast.Inspect(fd.Body, func(n ast.Node) bool {
+			if _, isLit := n.(*ast.FuncLit); isLit {
+				return false
+			}
+			rs, ok := n.(*ast.ReturnStmt)
+			if !ok {
+				return true
+			}
+			nRet++
+			okRet := false
+			if len(rs.Results) == 1 {
+				if call, isC := ast.Unparen(rs.Results[0]).(*ast.CallExpr); isC && len(call.Args) == 2 && len(ps) == 2 {
+					if fn, isF := typeutil.Callee(p.TypesInfo, call).(*types.Func); isF && fn.Name() == "GetBlackRow" && identObj(p, call.Args[0]) == ps[0] && identObj(p, call.Args[1]) == ps[1] {
+						if sel, isS := call.Fun.(*ast.SelectorExpr); isS {
+							if inner, isS2 := ast.Unparen(sel.X).(*ast.SelectorExpr); isS2 && inner.Sel.Name == "binarizer" {
+								okRet = true
+							}
+						}
+					}
+				}
+			}
+			if !okRet && bad == "" {
+				bad = "a return at " + c.pos(rs.Pos()) + " does not hand on binarizer.GetBlackRow(y, row)"
+			}
+			return true
+		})
+		if nRet == 0 {
+			bad = "no return found"
+		}
+		r.Check(bad == "", "S-PASS", key, c.pos(fd.Pos()), bad)
+	} else {
+		r.AnchorLost("S-PASS", "gozxing.BinaryBitmap.GetBlackRow/delegates", "method not found")
 	}
 }
 
